@@ -71,3 +71,73 @@ Proof. exact C06_power_loss_during_recovery. Qed.
 Print Assumptions C06_power_loss_during_a_recovery.
 
 Definition C06_with_recovery_example := C06_with_recovery_nonvacuous.
+
+(* ---- ONE statement for ANY instant (PowerLoss3.v): the power fails after any number of events of a history
+   of epochs; [instant_dichotomy]: either the lock file exists there (C06_with_recovery applies) or the
+   instant lies in the window after a completed Close (C09_reopen_epochs applies); nothing else ---- *)
+From Pogreb Require Import Base BaseLemmas Crc Bytes Record RecordProofs Flat Spec DB DBInv DBLemmas
+  DBProofsOps DBMeta DBProofsRecovery DBProofsCompact DBProofsCrash PowerLoss PowerLoss2 PowerLoss3.
+(* sync point anywhere, any epochs afterwards, power failure at ANY instant, any admissible image: Open succeeds (recovering iff the lock file exists), Inv, contents = sync point + prefix of the later operations; in the window after a Close exactly the closed contents *)
+Theorem C06_power_loss_at_any_instant :
+  forall P seed cf0 mh0 K0 cfa osync cf1 mh K cf' Kcut L' img',
+
+  params_ok P -> XOpen P cf0 ->
+  mrun P cf0 mh0 K0 cfa -> xstep P cfa osync cf1 -> sync_point P osync ->
+  mrun P cf1 mh K cf' -> instant Kcut K ->
+  plh fnone (s_disk (fst cf0)) (K0 ++ CE (s_trace (fst cf1)) :: Kcut) L' img' ->
+  exists s2 b, db_open flat_ops P seed (closed img') = (s2, OOpened b) /\ Inv P s2 /\ s_mem s2 <> None /\
+    after (cont (s_disk (fst cf1))) mh (cont (s_disk s2)) /\
+    b = d_lock (hrun Kcut (s_disk (fst cf1))) /\ d_lock img' = b /\
+    (b = false -> exists s s1, closed_window P cf1 mh K cf' Kcut s s1) /\
+    (forall s s1, closed_window P cf1 mh K cf' Kcut s s1 ->
+       b = false /\ img' = set_orphans (s_disk s1) (d_orphans img') /\ ceq (cont (s_disk s2)) (cont (s_disk s))).
+Proof. exact power_loss_any_instant. Qed.
+Print Assumptions C06_power_loss_at_any_instant.
+
+(* the instant given as a number n of file-system events *)
+Theorem C06_power_loss_after_any_number_of_events :
+  forall P seed cf0 mh0 K0 cfa osync cf1 mh K cf' n L' img',
+
+  params_ok P -> XOpen P cf0 ->
+  mrun P cf0 mh0 K0 cfa -> xstep P cfa osync cf1 -> sync_point P osync ->
+  mrun P cf1 mh K cf' ->
+  plh fnone (s_disk (fst cf0)) (K0 ++ CE (s_trace (fst cf1)) :: hpre n K) L' img' ->
+  hflat (hpre n K) = firstn n (hflat K) /\
+  exists s2 b, db_open flat_ops P seed (closed img') = (s2, OOpened b) /\ Inv P s2 /\ s_mem s2 <> None /\
+    after (cont (s_disk (fst cf1))) mh (cont (s_disk s2)) /\
+    b = d_lock (hrun (hpre n K) (s_disk (fst cf1))) /\ d_lock img' = b /\
+    (b = false -> exists s s1, closed_window P cf1 mh K cf' (hpre n K) s s1) /\
+    (forall s s1, closed_window P cf1 mh K cf' (hpre n K) s s1 ->
+       b = false /\ img' = set_orphans (s_disk s1) (d_orphans img') /\ ceq (cont (s_disk s2)) (cont (s_disk s))).
+Proof. exact power_loss_after_n_events. Qed.
+Print Assumptions C06_power_loss_after_any_number_of_events.
+
+(* the dichotomy *)
+Theorem C06_every_instant_is_covered :
+  forall P cf1 mh K cf' Kcut,
+
+  params_ok P -> XOpen P cf1 -> mrun P cf1 mh K cf' -> instant Kcut K ->
+  (d_lock (hrun Kcut (s_disk (fst cf1))) = true /\ (hcut Kcut K \/ (Kcut = [] /\ K = [] /\ mh = []))) \/
+  (d_lock (hrun Kcut (s_disk (fst cf1))) = false /\ hcut Kcut K /\
+   exists s s1, closed_window P cf1 mh K cf' Kcut s s1).
+Proof. exact instant_dichotomy. Qed.
+Print Assumptions C06_every_instant_is_covered.
+
+(* the same for histories that also contain process crashes in the middle of a CLEAN Open (mrun3) *)
+Theorem C06_power_loss_at_any_instant_with_crashes_in_clean_opens :
+  forall P seed cf0 mh0 K0 cfa osync cf1 mh K cf' Kcut L' img',
+
+  params_ok P -> XOpen P cf0 ->
+  mrun3 P cf0 mh0 K0 cfa -> xstep P cfa osync cf1 -> sync_point P osync ->
+  mrun3 P cf1 mh K cf' -> instant Kcut K ->
+  plh fnone (s_disk (fst cf0)) (K0 ++ CE (s_trace (fst cf1)) :: Kcut) L' img' ->
+  exists s2 b, db_open flat_ops P seed (closed img') = (s2, OOpened b) /\ Inv P s2 /\ s_mem s2 <> None /\
+    after (cont (s_disk (fst cf1))) mh (cont (s_disk s2)) /\
+    b = d_lock (hrun Kcut (s_disk (fst cf1))) /\ d_lock img' = b /\
+    (b = false -> exists s s1, closed_window3 P cf1 mh K Kcut s s1) /\
+    (forall s s1, closed_window3 P cf1 mh K Kcut s s1 ->
+       b = false /\ img' = set_orphans (s_disk s1) (d_orphans img') /\ ceq (cont (s_disk s2)) (cont (s_disk s))).
+Proof. exact power_loss_any_instant3. Qed.
+Print Assumptions C06_power_loss_at_any_instant_with_crashes_in_clean_opens.
+
+Definition C06_any_instant_nonvacuous := power_loss_any_instant_nonvacuous.
